@@ -54,6 +54,20 @@ def gen_dex_case(rng):
         else:
             V = [[x + 100.0 + rng.randint(0, 7) + rng.choice([1e-9, 0.1, 2.0 ** -40]) for x in row] for row in X]
         case["X"] = enc(np.array(X)); case["V"] = enc(np.array(V))
+    elif rng.random() < 0.25:
+        # a converged population or other units: mutants differ from their targets in every coordinate, but only slightly
+        kind = rng.choice(["tiny-units", "offset", "converged"])
+        if kind == "tiny-units":
+            k = 2.0 ** rng.choice([-70, -40, -30])
+            X = [[x * k for x in row] for row in X]; V = [[x + (1 + rng.randint(0, 7)) * k * 2.0 ** -3 for x in row] for row in X]
+        elif kind == "offset":
+            off = rng.choice([300.0, 1.7e9, -4096.0])
+            X = [[off + x * 2.0 ** -12 for x in row] for row in X]; V = [[x + (1 + rng.randint(0, 7)) * 2.0 ** -18 for x in row] for row in X]
+        else:
+            X = [[x if x != 0.0 else 1.0 for x in row] for row in X]; V = [[x * (1.0 + (1 + rng.randint(0, 7)) * 2.0 ** -30) for x in row] for row in X]
+        assert all(a != b for rx, rv_ in zip(X, V) for a, b in zip(rx, rv_))
+        case["near"] = kind
+        case["X"] = enc(np.array(X)); case["V"] = enc(np.array(V))
     r = rng.random()
     if r < 0.4:
         # boundary draws: 0.0, exactly CR, just below/above CR, 1 - 2^-53
@@ -97,7 +111,7 @@ class C12(Check):
     ID = "C12"
     IMPORTS = "From PV Require Import Model.Cross."
     RULE = ("DEX(variant, CR).do on merged (target, mutant) populations and cross_binomial/cross_exp directly; targets dyadic, mutants = target+100+k so "
-            "the mask is observable; targets also integer-coded (int64) or single precision with double-precision mutants; CR in {0, 2^-53, .1, .5, .7, .9, 1, random}; draws recorded, or scripted with boundary values (0, CR, CR+-1ulp, 1-2^-53) "
+            "the mask is observable; targets also integer-coded (int64) or single precision with double-precision mutants; 25% of the rest with mutants within a few ulps/2^-30 of their targets (tiny units, large offset with small spread, converged population); CR in {0, 2^-53, .1, .5, .7, .9, 1, random}; draws recorded, or scripted with boundary values (0, CR, CR+-1ulp, 1-2^-53) "
             "and scripted randint; non-trivial = n_var >= 2; distinct by hash")
     ASSUMPTIONS = ["order-only theorems (any number type); CR=0/1 corollaries stated over Q with draws in [0,1)",
                    "'target and mutant are not modified' is a property of the functional model and an observation (array snapshots) on the implementation"]
@@ -129,6 +143,7 @@ class C12(Check):
         if any(e[0] == "randint" and e[3] is None for e in obs["events"]): out.append("forced-coordinate")
         if len(case["X"][0]) == 1: out.append("n_var=1")
         if "xdtype" in case: out.append("targets-" + case["xdtype"])
+        if "near" in case: out.append("near-" + case["near"])
         return out
 
     def explain(self, case, obs):
